@@ -315,9 +315,10 @@ func (m *c02Model) locCount(f bgp.Family) (paths, dests int) {
 // ---- lookups: plain prefix arithmetic
 
 // c02MatchUC returns whether destination prefix p is selected by the query.
-//   exact   prefix q : p == q
-//   longer  prefix q : p lies inside q (q itself included)
-//   shorter prefix q : p covers q (q itself included)
+//
+//	exact   prefix q : p == q
+//	longer  prefix q : p lies inside q (q itself included)
+//	shorter prefix q : p covers q (q itself included)
 func c02MatchPrefix(kind int, q, p netip.Prefix) bool {
 	if q.Addr().Is4() != p.Addr().Is4() {
 		return false
